@@ -255,7 +255,55 @@ def r7(F, rep):
         raise AnalysisBroken("parse_params: only %d overwritable grid members found" % n)
 
 
+def companion_shape(F, rep, rid):
+    """Shared with C04-R6."""
+    rep.rule(rid, "companion grids have one shape: a constructor of a grid class that stores a pointer to another grid in a "
+                  "member (the count grid of a gradient grid, the gradient grid of a PMF grid -- both are subscripted with "
+                  "the holder's own indices) sizes the holder from that grid: the base-class initialiser receives the same "
+                  "parameter, or the body copies the number of points from it")
+    grid_classes = set(F.subclasses("colvar_grid_params", strict=True)) if hasattr(F, "subclasses") else set()
+    n = 0
+    for f in F.funcs.values():
+        if not f.ctor or f.cls not in grid_classes or "/src/" not in f.file:
+            continue
+        pd = {p["d"]: p for p in f.params}
+        for it in f.inits:
+            e = it.get("e") or it.get("init")
+            if not it.get("member") or e is None:
+                continue
+            ee = X.strip(e)
+            while ee["k"] in ("CXXConstructExpr", "ImplicitCastExpr", "MaterializeTemporaryExpr", "CXXBindTemporaryExpr") and len(X.kids(ee)) == 1:
+                ee = X.strip(X.kids(ee)[0])
+            if ee["k"] != "DeclRefExpr" or ee.get("d") not in pd:
+                continue
+            ptype = f.typestr(pd[ee["d"]]["t"])
+            if "colvar_grid" not in ptype or "shared_ptr" not in ptype:
+                continue
+            n += 1
+            d = ee["d"]
+            ment = lambda m: m["k"] == "DeclRefExpr" and m.get("d") == d
+            via_base = any(b.get("base") is not None and (b.get("e") or b.get("init")) is not None and X.mentions(b.get("e") or b.get("init"), ment) for b in f.inits)
+            via_body = False
+            if f.body is not None:
+                from .rules_c10 import lvalue_writes
+                for w, t in lvalue_writes(f):
+                    if X.key(t, f) == "this.nx" and w["k"] in ("BinaryOperator", "CXXOperatorCallExpr") and X.mentions(w, ment):
+                        via_body = True
+            ok = via_base or via_body
+            rep.add(rid, "%s|%s<-%s" % (f.q, it["member"], pd[d]["n"]), f.loc(), "%s(%s) stores `%s` in `%s`; the holder is sized from it: %s" % (
+                f.q, ", ".join(p["n"] for p in f.params), pd[d]["n"], it["member"],
+                "through the base-class initialiser" if via_base else "in the body" if via_body else "NO (sized from the variables / another argument only)"), ok,
+                detail="a custom grid block gives the two grids different numbers of bins; a bin index computed on one addresses the other out of range", func=f.q)
+    if n < 3:
+        raise AnalysisBroken("%s: only %d constructors storing a companion grid found (gradient+count, pmf+gradient x2 expected)" % (rid, n))
+
+
+def r8(F, rep):
+    companion_shape(F, rep, "C15-R8")
+
+
 def run(F, rep, tier):
+    r8(F, rep)
     r1(F, rep)
     r3(F, rep)
     r4(F, rep)
